@@ -188,7 +188,7 @@ def check_mirrors(repo):
             raise ToolError('type mirror drift: %s `%s` has variants %s but prelude/%s has %s' % (src, what, sorted(a), pfile, sorted(b)))
 
 
-def assemble(repo=REPO, mutate_hook=None, only_units=None, canary=False):
+def assemble(repo=REPO, mutate_hook=None, only_units=None, canary=False, skip=()):
     check_mirrors(repo)
     fns = specmod.load_dir(os.path.join(VERIF, 'contracts'))
     eff = load_effectful()
@@ -255,6 +255,9 @@ def assemble(repo=REPO, mutate_hook=None, only_units=None, canary=False):
         prelude(unit + '_')
         cur_emit = None
         for fs in ufns:
+            if fs.fid in skip:
+                fs.external = True
+                fs.skipped = True
             g = genmod.build_fn(fs, repo, eff, tkeys.keys(), canary=canary and not fs.external)
             G.fns[fs.fid] = g
             emit = fs.emit if fs.emit is not None else fs.scope
@@ -316,6 +319,7 @@ def assemble(repo=REPO, mutate_hook=None, only_units=None, canary=False):
     G.hash = hashlib.sha256(G.text.encode()).hexdigest()[:16]
     G.specs = byfid
     G.tkeys = tkeys
+    G.skipped = sorted(skip)
     # assume/admit are forbidden in contracts and extracted bodies
     for i, (l, fid, origin) in enumerate(out):
         if fid and re.search(r'\b(assume|admit)\s*\(', l) and origin[0] != 'prelude':
@@ -361,6 +365,8 @@ def classify(G, res):
     """returns (failed: dict oid -> list of diag summaries, tool_errors: list of str, fn_status)"""
     failed = {}
     tool = []
+    G.tool_fids = set()
+    G.tool_unmapped = False
     ranges = G.fn_ranges
 
     def fn_of_line(ln):
@@ -387,9 +393,19 @@ def classify(G, res):
         is_resource = any(m in msg for m in RESOURCE_MSGS)
         if is_resource:
             tool.append('resource limit: %s' % msg)
+            fids_here = {sp['fid'] for sp in summary['spans'] if sp.get('fid')}
+            if fids_here:
+                G.tool_fids |= fids_here
+            else:
+                G.tool_unmapped = True
             continue
         if not is_verif:
             loc = summary['spans'][0] if summary['spans'] else {}
+            fids_here = {sp['fid'] for sp in summary['spans'] if sp.get('fid')}
+            if fids_here:
+                G.tool_fids |= fids_here
+            else:
+                G.tool_unmapped = True
             tool.append('verus/rustc error: %s  [gen line %s, fn %s, origin %s] %s' % (
                 msg, loc.get('gen_line'), loc.get('fid'), loc.get('origin'), loc.get('text', '')))
             continue
